@@ -198,7 +198,26 @@ fn is_bits(ts: &str) -> bool {
     BITS.contains(&ts)
 }
 
+/// primitive / string / binary dictionaries over all eight key types whose null rows are valid
+/// keys into null dictionary VALUES (`NULLVAL` family)
+const DNV: [&str; 10] = ["dnv_i8_i32", "dnv_i16_i64", "dnv_i32_u8", "dnv_i64_f64", "dnv_u8_i32", "dnv_u16_utf8", "dnv_u32_bin", "dnv_u64_i64", "dnv_i8_utf8", "dnv_i32_i32"];
+fn is_dnv(ts: &str) -> bool {
+    ts.starts_with("dnv_")
+}
+
 fn parse_lt(s: &str) -> LT {
+    if let Some(rest) = s.strip_prefix("dnv_") {
+        let (k, v) = rest.split_once('_').expect("dnv_<key>_<value>");
+        let kt = match k {
+            "i8" => DataType::Int8, "i16" => DataType::Int16, "i32" => DataType::Int32, "i64" => DataType::Int64,
+            "u8" => DataType::UInt8, "u16" => DataType::UInt16, "u32" => DataType::UInt32, _ => DataType::UInt64,
+        };
+        let vt = match v {
+            "i32" => LT::Prim(DataType::Int32), "i64" => LT::Prim(DataType::Int64), "u8" => LT::Prim(DataType::UInt8),
+            "f64" => LT::Prim(DataType::Float64), "utf8" => LT::Utf8(false), _ => LT::Binary(false),
+        };
+        return LT::Dict(kt, Box::new(vt));
+    }
     match s {
         "listbool" => LT::List(Box::new(LT::Bool)),
         "llistbool" => LT::LargeList(Box::new(LT::Bool)),
@@ -380,6 +399,19 @@ thread_local! {
     /// fixed-width values = the largest positive pattern ff..7f)
     static ONES: std::cell::Cell<bool> = std::cell::Cell::new(false);
 }
+thread_local! {
+    /// column family `dnv_*`: every null row of a dictionary column is encoded as a VALID key that
+    /// points at a NULL dictionary value (never as a null key)
+    static NULLVAL: std::cell::Cell<bool> = std::cell::Cell::new(false);
+    /// payload to store under null slots of the array being built (dictionary values of `dnv_*`)
+    static NULL_PAYLOAD: RefCell<Option<Vec<u8>>> = RefCell::new(None);
+}
+fn nullval() -> bool {
+    NULLVAL.with(|c| c.get())
+}
+fn null_payload() -> Option<Vec<u8>> {
+    NULL_PAYLOAD.with(|c| c.borrow().clone())
+}
 fn ones() -> bool {
     ONES.with(|c| c.get())
 }
@@ -392,6 +424,11 @@ fn junk(rng: &mut Rng, w: usize, garbage: bool) -> Vec<u8> {
         }
         v
     };
+    if let Some(p) = null_payload() {
+        if p.len() == w {
+            return p;
+        }
+    }
     if ones() {
         return maxpos(w);
     }
@@ -480,7 +517,13 @@ fn raw(rng: &mut Rng, t: &LT, col: &[V], k: &Knobs) -> ArrayData {
     let (slots, _real) = with_pad(rng, t, col, k);
     // a padded column whose padding contains nulls needs a bitmap
     let need_bitmap = col_has_null || slots.iter().any(|v| *v == V::N);
-    let nulls = validity(rng, &slots, need_bitmap, k, !matches!(t, LT::Ree(_) | LT::Null));
+    let nv_dict = nullval() && matches!(t, LT::Dict(..));
+    let nulls = if nv_dict {
+        // keys are all valid; (force_validity) an all-valid bitmap
+        if k.force_validity { Some(vec![0xffu8; (slots.len() + 7) / 8 + 1]) } else { None }
+    } else {
+        validity(rng, &slots, need_bitmap, k, !matches!(t, LT::Ree(_) | LT::Null))
+    };
     let n = col.len();
     let kid_knobs = |rng: &mut Rng| Knobs {
         pad: k.kidpad.unwrap_or(if k.variant { rng.usize(4) } else { 0 }),
@@ -535,7 +578,9 @@ fn raw(rng: &mut Rng, t: &LT, col: &[V], k: &Knobs) -> ArrayData {
                 match v {
                     V::X(x) => data.extend_from_slice(x),
                     _ => {
-                        if k.garbage {
+                        if let Some(p) = null_payload() {
+                            data.extend_from_slice(&p);
+                        } else if k.garbage {
                             data.extend_from_slice(rng.pick(&WORDS).as_bytes());
                         }
                     }
@@ -657,10 +702,33 @@ fn raw(rng: &mut Rng, t: &LT, col: &[V], k: &Knobs) -> ArrayData {
                     vals.swap(i, rng.usize(i + 1));
                 }
             }
+            // `dnv_*`: null rows are valid keys into null VALUE slots; the payload under those null
+            // values is zero / a live value of the column / MAX / random
+            let mut payload: Option<Vec<u8>> = None;
+            if nv_dict {
+                let live: Vec<Vec<u8>> = vals.iter().filter_map(|v| if let V::X(x) = v { Some(x.clone()) } else { None }).collect();
+                let w = match &**vt { LT::Prim(d) => prim_width(d), _ => 0 };
+                let class = rng.below(5);
+                payload = match class {
+                    0 => Some(vec![0u8; w]),
+                    1 | 2 if !live.is_empty() => Some(rng.pick(&live).clone()),
+                    3 if w > 0 => { let mut m = vec![0xffu8; w]; m[w - 1] = 0x7f; Some(m) }
+                    _ => None,
+                };
+                tag(&format!("nvp:{}", match (class, &payload) { (0, _) => "zero", (1 | 2, Some(_)) => "live", (3, Some(_)) => "max", _ => "rand" }));
+                for _ in 0..1 + rng.usize(2) {
+                    let at = rng.usize(vals.len() + 1);
+                    vals.insert(at, V::N);
+                }
+            }
             let kw = prim_width(kt);
             let mut keys = vec![];
             for v in &slots {
                 match v {
+                    V::N if nv_dict => {
+                        let cands: Vec<usize> = (0..vals.len()).filter(|j| vals[*j] == V::N).collect();
+                        put_int(*rng.pick(&cands) as i64, kw, &mut keys);
+                    }
                     V::N => put_int(if k.garbage { *rng.pick(&[100i64, -1, 127, 50]) } else { 0 }, kw, &mut keys),
                     _ => {
                         let cands: Vec<usize> = (0..vals.len()).filter(|j| vals[*j] == *v).collect();
@@ -670,7 +738,13 @@ fn raw(rng: &mut Rng, t: &LT, col: &[V], k: &Knobs) -> ArrayData {
             }
             let mut kk = kid_knobs(rng);
             kk.force_validity = false;
-            b = b.add_buffer(abuf(&keys)).add_child_data(raw(rng, vt, &vals, &kk));
+            NULL_PAYLOAD.with(|c| *c.borrow_mut() = payload);
+            let child = std::panic::catch_unwind(std::panic::AssertUnwindSafe(|| raw(rng, vt, &vals, &kk)));
+            NULL_PAYLOAD.with(|c| *c.borrow_mut() = None);
+            match child {
+                Ok(c) => b = b.add_buffer(abuf(&keys)).add_child_data(c),
+                Err(e) => std::panic::resume_unwind(e),
+            }
         }
         LT::Ree(vt) => {
             // maximal runs, then (variant) split at random points
@@ -742,6 +816,12 @@ fn raw(rng: &mut Rng, t: &LT, col: &[V], k: &Knobs) -> ArrayData {
 
 /// the column through the standard typed builders / `From` impls, where one exists
 fn std_build(t: &LT, col: &[V]) -> Option<ArrayRef> {
+    if let LT::Dict(_, v) = t {
+        // the string dictionary builders encode nulls as null keys and only hold strings
+        if nullval() || !matches!(**v, LT::Utf8(false)) {
+            return None;
+        }
+    }
     use arrow_array::builder::*;
     let s = |v: &V| match v {
         V::X(x) => Some(String::from_utf8(x.clone()).unwrap()),
@@ -1544,6 +1624,15 @@ fn perturb(rng: &mut Rng, t: &LT, col: &[V]) -> Option<Vec<V>> {
 }
 
 fn run_col(ts: &str, n: usize, seed: u64) -> String {
+    NULLVAL.with(|c| c.set(is_dnv(ts)));
+    let r = std::panic::catch_unwind(std::panic::AssertUnwindSafe(|| run_col_inner(ts, n, seed)));
+    NULLVAL.with(|c| c.set(false));
+    match r {
+        Ok(s) => s,
+        Err(e) => std::panic::resume_unwind(e),
+    }
+}
+fn run_col_inner(ts: &str, n: usize, seed: u64) -> String {
     let t = parse_lt(ts);
     let mut rng = Rng::new(seed.wrapping_mul(0x9e3779b97f4a7c15) ^ 0xC02);
     let col = gen_col(&mut rng, &t, n);
@@ -1734,6 +1823,42 @@ fn run_col(ts: &str, n: usize, seed: u64) -> String {
                 Ok(Arc::new(UInt64Array::from(p.ranges().iter().flat_map(|r| [r.start as u64, r.end as u64]).collect::<Vec<_>>())) as ArrayRef)
             })));
         }
+        bin.push(("concat2", Box::new(|x, y| arrow_select::concat::concat(&[x.as_ref(), y.as_ref()]))));
+        bin.push(("concat3", Box::new(|x, y| arrow_select::concat::concat(&[y.as_ref(), x.as_ref(), y.as_ref()]))));
+        bin.push(("interleave2", Box::new(|x, y| {
+            let idx: Vec<(usize, usize)> = (0..x.len().min(y.len())).map(|i| (i % 2, x.len().min(y.len()) - 1 - i)).collect();
+            arrow_select::interleave::interleave(&[x.as_ref(), y.as_ref()], &idx)
+        })));
+        bin.push(("interleave2_few", Box::new(|x, y| {
+            // few output rows: the total number of dictionary values exceeds the output length
+            let m = x.len().min(y.len());
+            let idx: Vec<(usize, usize)> = (0..m.min(3)).map(|i| ((i + 1) % 2, (i * 7) % m)).collect();
+            arrow_select::interleave::interleave(&[x.as_ref(), y.as_ref()], &idx)
+        })));
+        bin.push(("concat_batches2", Box::new(|x, y| {
+            let (a, c) = (RecordBatch::try_from_iter([("c", x.clone())])?, RecordBatch::try_from_iter([("c", y.clone())])?);
+            Ok(arrow_select::concat::concat_batches(&a.schema(), &[a.clone(), c])?.column(0).clone())
+        })));
+        bin.push(("interleave_record_batch2", Box::new(|x, y| {
+            let (a, c) = (RecordBatch::try_from_iter([("c", x.clone())])?, RecordBatch::try_from_iter([("c", y.clone())])?);
+            let m = x.len().min(y.len());
+            let idx: Vec<(usize, usize)> = (0..m).map(|i| ((i / 2) % 2, i)).collect();
+            Ok(arrow_select::interleave::interleave_record_batch(&[&a, &c], &idx)?.column(0).clone())
+        })));
+        bin.push(("coalesce2", Box::new(|x, y| {
+            let (a, c) = (RecordBatch::try_from_iter([("c", x.clone())])?, RecordBatch::try_from_iter([("c", y.clone())])?);
+            let mut co = arrow_select::coalesce::BatchCoalescer::new(a.schema(), 1 << 20);
+            co.push_batch(a)?;
+            co.push_batch(c.clone())?;
+            co.push_batch(c)?;
+            co.finish_buffered_batch()?;
+            let mut parts: Vec<ArrayRef> = vec![];
+            while let Some(b) = co.next_completed_batch() {
+                parts.push(b.column(0).clone());
+            }
+            let refs: Vec<&dyn Array> = parts.iter().map(|p| p.as_ref()).collect();
+            if refs.is_empty() { Ok(new_empty_array(x.data_type())) } else { arrow_select::concat::concat(&refs) }
+        })));
         if matches!(t, LT::Bool) {
             bin.push(("and", Box::new(move |x, y| b(ab::and(x.as_boolean(), y.as_boolean())))));
             bin.push(("or", Box::new(move |x, y| b(ab::or(x.as_boolean(), y.as_boolean())))));
@@ -1906,7 +2031,7 @@ fn pick_n(rng: &mut Rng) -> usize {
 /// the lines of one generated column: the oracle case plus correspondence lines on its dumps
 fn gen_column_cases(rng: &mut Rng, out: &mut Vec<(String, String)>) {
     // Boolean columns get extra weight (boolean kernels read value bits next to validity bits)
-    let ts = if rng.chance(1, 10) { "bool" } else if rng.chance(1, 3) { *rng.pick(&BITS) } else { *rng.pick(&GRID) };
+    let ts = if rng.chance(1, 12) { *rng.pick(&DNV) } else if rng.chance(1, 10) { "bool" } else if rng.chance(1, 3) { *rng.pick(&BITS) } else { *rng.pick(&GRID) };
     let n = if is_bits(ts) { *rng.pick(&[1usize, 2, 3, 4, 6, 9, 17]) } else { pick_n(rng) };
     gen_column_cases_for(rng, ts, n, out)
 }
@@ -1915,8 +2040,9 @@ fn gen_column_cases(rng: &mut Rng, out: &mut Vec<(String, String)>) {
 /// 0, 1, 8, 64, 65, 129 (one/two 64-bit words of validity, +-1), leaf types also at 1025
 fn boundary_block(out: &mut Vec<(String, String)>) {
     let mut rng = Rng::new(0xC02_B10C);
-    for ts in GRID.iter().chain(BITS.iter()) {
-        let sizes: &[usize] = if is_bits(ts) { &[0, 1, 8, 13] } else if matches!(*ts, "bool" | "i32" | "u8" | "utf8" | "f64" | "utf8view" | "dict8") { &[0, 1, 8, 64, 65, 129, 1025] } else { &[0, 1, 8, 64, 65, 129] };
+    for ts in GRID.iter().chain(BITS.iter()).chain(DNV.iter()) {
+        // dnv: row counts on both sides of the dictionary-merge heuristic (total values >= output rows)
+        let sizes: &[usize] = if is_dnv(ts) { &[1, 2, 3, 5, 8, 20, 64, 130] } else if is_bits(ts) { &[0, 1, 8, 13] } else if matches!(*ts, "bool" | "i32" | "u8" | "utf8" | "f64" | "utf8view" | "dict8") { &[0, 1, 8, 64, 65, 129, 1025] } else { &[0, 1, 8, 64, 65, 129] };
         for &n in sizes {
             let before = out.len();
             gen_column_cases_for(&mut rng, ts, n, out);
@@ -1985,6 +2111,14 @@ fn threshold_block(out: &mut Vec<(String, String)>) {
 }
 
 fn gen_column_cases_for(rng: &mut Rng, ts: &str, n: usize, out: &mut Vec<(String, String)>) {
+    NULLVAL.with(|c| c.set(is_dnv(ts)));
+    let r = std::panic::catch_unwind(std::panic::AssertUnwindSafe(|| gen_column_cases_inner(rng, ts, n, out)));
+    NULLVAL.with(|c| c.set(false));
+    if let Err(e) = r {
+        std::panic::resume_unwind(e);
+    }
+}
+fn gen_column_cases_inner(rng: &mut Rng, ts: &str, n: usize, out: &mut Vec<(String, String)>) {
     let t = parse_lt(ts);
     let seed = rng.next_u64() >> 16;
     out.push((format!("C02 col {} {} {}", ts, n, seed), format!("op:col type:{} {}", ts, if n > 1 { "nt" } else { "" })));
@@ -2077,7 +2211,9 @@ fn main() {
             let ty = line.split(' ').nth(2).unwrap_or("");
             let n0 = line.split(' ').nth(3) == Some("0");
             // known findings (see /verif/known_findings.txt): precise class + type + symptom
-            let kf = if class == "kernel" && kname.starts_with("substring") && (ty == "utf8" || ty == "lutf8") && f.contains("=ERR but [plain]=") && !f.contains("[plain]=ERR") {
+            let kf = if class == "kernel" && kname == "cast" && ty == "dnv_u32_bin" && (f.contains("cast:Utf8View:strict[") || f.contains("cast:Dictionary(UInt16, Utf8):strict[")) && f.contains("=ERR but [plain]=") && !f.contains("[plain]=ERR") {
+                " kf:dict-binary-strict-cast-unreferenced"
+            } else if class == "kernel" && kname.starts_with("substring") && (ty == "utf8" || ty == "lutf8") && f.contains("=ERR but [plain]=") && !f.contains("[plain]=ERR") {
                 " kf:substring-null-payload"
             } else if class == "commute-concat" && (ty == "ree" || ty == "reestr") && n0 && f.contains("k(concat)=ERR") {
                 " kf:concat-empty-ree"
